@@ -111,10 +111,10 @@ ASSUME \A j \in DOMAIN USeq : MeshInScope(USeq[j].m)
 Hash(q) == SumSeq([c \in DOMAIN q |-> (2 * c + 3) * q[c]])
 Keep(q, r) == Tier = "thorough" \/ Hash(q) % r = 0
 BatchesOf(u) ==
-  LET r == IF Len(CHOOSE q \in u.Q : TRUE) = 3 THEN 4 ELSE 2 IN
+  LET r == IF Len(CHOOSE q \in u.Q : TRUE) = 3 THEN 6 ELSE 3 IN
   {<<q>> : q \in {x \in u.Q : Keep(x, r)} \cup u.A}
-  \cup {<<q, a>> : q \in {x \in u.Q : Keep(x, 8)}, a \in u.A}
-  \cup {<<a, q, q>> : q \in {x \in u.Q : Keep(x, 8)}, a \in u.A}
+  \cup {<<q, a>> : q \in {x \in u.Q : Keep(x, 12)}, a \in u.A}
+  \cup {<<a, q, q>> : q \in {x \in u.Q : Keep(x, 12)}, a \in u.A}
 
 \* export for replay on the real finders (spec -> code)
 ExportOf(u) == [kind |-> u.m.kind, p |-> u.m.p, t |-> u.m.t, batches |-> SetToSeq(BatchesOf(u))]
